@@ -52,7 +52,7 @@ PROPS = {
                 release=False, leak_free=True),
     "C08": dict(families=["clone", "clonefuse", "clone_in"], keys=["out", "ret", "len", "cap", "snap", "ev_clone", "ev_drop", "ev_backend"], cfgs=any_cfg,
                 release=False, leak_free=True),
-    "C10": dict(families=["capacity", "liar", "random"], keys=["out", "len", "cap", "snap"], cfgs=is_resizable,
+    "C10": dict(families=["capacity", "liar", "clone", "random"], keys=["out", "len", "cap", "snap"], cfgs=is_resizable,
                 release=True, leak_free=True),
     "C11": dict(families=["elem", "range", "clone", "views", "clone_in", "stackcap"], keys=["out", "ret", "len", "cap", "snap", "ev_alloc"],
                 cfgs=is_stack, release=False, leak_free=True),
